@@ -1077,6 +1077,60 @@ theorem no_livelock_under_any_schedule (g : G) (sched : List Tid) :
     effSteps g sched + mu (run g sched) ≤ mu g :=
   effSteps_le g sched
 
+/-- **Every op returns under plain count-fairness** (the form "each unfinished thread is scheduled at
+least `N` more times", `N = mu g` computed from the state): after any prefix `sched₁`, let `sched₂` be
+ANY schedule — receiver steps, stop, kill, status writes, other threads, in any order — in which every
+worker whose program is unfinished occurs at least `mu g` times. Then after `sched₂` no send, drain or
+wrong-type send is in flight: every call has returned, all CAS loops have terminated. (For the receiver
+this form of fairness is not enough — `recv^N` before the senders leaves the queue full — hence the
+rounds of `fair_schedule_reaches_the_end_state`.) -/
+theorem every_op_returns_when_its_thread_is_scheduled_often_enough (progs : List (List Op))
+    (sched₁ sched₂ : List Tid)
+    (h : ∀ i, en (run (init progs) sched₁) (.t i) = true → mu (run (init progs) sched₁) ≤ sched₂.count (.t i)) :
+    quiescent (run (init progs) (sched₁ ++ sched₂)) = true := by
+  have K := stackOk_run _ (sched₁ ++ sched₂) (stackOk_init progs)
+  rw [run_append] at K ⊢
+  exact quiescent_of_workers_done K (workers_done _ sched₂ h)
+
+/-- **A drain never leaves the actor running forever — liveness under count-fairness of the workers
+only.** If admission is closed in a reachable state and every unfinished worker is scheduled `mu g`
+more times (the receiver, stop and kill arbitrary), then the marker bit is set, and — unless the
+receiver has already closed the channel — the marker is in the channel or was already dequeued (and the
+receiver has left its loop). This discharges the quiescence hypothesis of `drain_completes`. -/
+theorem marker_is_emitted_when_threads_are_scheduled_often_enough (progs : List (List Op))
+    (sched₁ sched₂ : List Tid)
+    (hc : (run (init progs) sched₁).sh.word.closed = true)
+    (h : ∀ i, en (run (init progs) sched₁) (.t i) = true → mu (run (init progs) sched₁) ≤ sched₂.count (.t i)) :
+    let f := run (init progs) (sched₁ ++ sched₂)
+    f.sh.word.marker = true ∧
+    (f.sh.rxOpen = true → f.sh.enq.count .drain = 1 ∧
+      (.drain ∈ f.sh.queue ∨ (.drain ∈ f.sh.deqd ∧ f.sh.rxStopped = true))) := by
+  intro f
+  have hq := every_op_returns_when_its_thread_is_scheduled_often_enough progs sched₁ sched₂ h
+  have hc' : f.sh.word.closed = true := by
+    simp only [f]; rw [run_append]; exact (mono_run _ _).closed hc
+  exact drain_completes progs (sched₁ ++ sched₂) hc' hq
+
+/-- Non-vacuity of the count form: the state of the example above (`mu = 48`), then thread 1 48 times,
+then thread 0 48 times — no receiver step at all: the hypothesis holds, every op has returned. -/
+example :
+    let g := run (init [[.send [] false], [.drain]]) [.t 0, .t 0, .t 0, .t 0, .t 0, .t 0, .t 0, .t 1, .t 1]
+    let sched₂ := List.replicate 48 (Tid.t 1) ++ List.replicate 48 (Tid.t 0)
+    (∀ i, en g (.t i) = true → mu g ≤ sched₂.count (.t i)) ∧ quiescent (run g sched₂) = true ∧
+      (run g sched₂).sh.queue = [.msg 0, .drain] := by
+  refine ⟨fun i hi => ?_, by decide +kernel, by decide +kernel⟩
+  have hlt : i < 2 := by
+    apply Classical.byContradiction
+    intro hge
+    simp only [en] at hi
+    have hnone : (run (init [[Op.send [] false], [Op.drain]])
+      [.t 0, .t 0, .t 0, .t 0, .t 0, .t 0, .t 0, .t 1, .t 1]).threads[i]? = none := by
+      apply List.getElem?_eq_none
+      rw [length_run]; simp [init]; omega
+    rw [hnone] at hi; cases hi
+  have : i = 0 ∨ i = 1 := by omega
+  rcases this with rfl | rfl <;> decide +kernel
+
 end C07
 
 #print axioms C07.at_most_one_stop_accepted
@@ -1144,3 +1198,5 @@ end C07
 #print axioms C07.drain_completes_under_every_fair_schedule
 #print axioms C07.repeated_drain_is_invisible_under_any_interleaving
 #print axioms C07.no_livelock_under_any_schedule
+#print axioms C07.every_op_returns_when_its_thread_is_scheduled_often_enough
+#print axioms C07.marker_is_emitted_when_threads_are_scheduled_often_enough
